@@ -1,0 +1,50 @@
+//go:build verif
+
+// Contracts for package ast, read by the verification engine in /verif (twv).
+// Comments only; compiled only with the build tag "verif".
+package ast
+
+// WFNode is the evaluator's precondition on the syntax tree: which children are present in
+// a program that parsed without errors. It is a precondition (what the parser must
+// deliver), unfolded node by node with "use wf<Type>(n)"; ast nodes are immutable during
+// evaluation (frame obligations of C16), so it does not depend on the heap.
+//@ spec WFNode(n Node) bool
+//@ pred WFN(n Node) = n != nil && WFNode(n)
+
+//@ axiom wfProgram(p *Program): WFNode(iface(p)) ==> forall(k, 0, len(p.Statements), WFN(p.Statements[k]))
+//@ axiom wfExpressionStmt(s *ExpressionStmt): WFNode(iface(s)) ==> WFN(s.Expression)
+//@ axiom wfIfStmt(s *IfStmt): WFNode(iface(s)) ==> WFN(s.Condition) && s.Consequence != nil && WFNode(iface(s.Consequence))
+//@      && (s.Alternative != nil ==> WFNode(iface(s.Alternative)))
+//@      && forall(k, 0, len(s.Alternatives), s.Alternatives[k] != nil && WFN(s.Alternatives[k].Condition)
+//@            && s.Alternatives[k].Consequence != nil && WFNode(iface(s.Alternatives[k].Consequence)))
+//@ axiom wfBlockStmt(b *BlockStmt): WFNode(iface(b)) ==> forall(k, 0, len(b.Statements), WFN(b.Statements[k]))
+//@ axiom wfAssignStmt(s *AssignStmt): WFNode(iface(s)) ==> s.Name != nil && WFN(s.Value)
+//@ axiom wfUseStmt(s *UseStmt): WFNode(iface(s)) ==> s.Name != nil && (s.Program != nil ==> WFNode(iface(s.Program)))
+//@ axiom wfReserveStmt(s *ReserveStmt): WFNode(iface(s)) ==> s.Name != nil && (s.Insert != nil ==> WFNode(iface(s.Insert)))
+//@ axiom wfInsertStmt(s *InsertStmt): WFNode(iface(s)) ==> (s.Block != nil ==> WFNode(iface(s.Block))) && (s.Argument != nil ==> WFNode(s.Argument))
+//@ axiom wfForStmt(s *ForStmt): WFNode(iface(s)) ==> (s.Init != nil ==> WFNode(s.Init)) && (s.Condition != nil ==> WFNode(s.Condition))
+//@      && (s.Post != nil ==> WFNode(s.Post)) && s.Block != nil && WFNode(iface(s.Block)) && (s.Alternative != nil ==> WFNode(iface(s.Alternative)))
+//@ axiom wfEachStmt(s *EachStmt): WFNode(iface(s)) ==> s.Var != nil && WFN(s.Array) && s.Block != nil && WFNode(iface(s.Block))
+//@      && (s.Alternative != nil ==> WFNode(iface(s.Alternative)))
+//@ axiom wfBreakIfStmt(s *BreakIfStmt): WFNode(iface(s)) ==> WFN(s.Condition)
+//@ axiom wfContinueIfStmt(s *ContinueIfStmt): WFNode(iface(s)) ==> WFN(s.Condition)
+//@ axiom wfComponentStmt(s *ComponentStmt): WFNode(iface(s)) ==> s.Name != nil && WFNode(iface(s.Name)) && (s.Block != nil ==> WFNode(iface(s.Block)))
+//@      && (s.Argument != nil ==> WFNode(iface(s.Argument)))
+//@ axiom wfSlotStmt(s *SlotStmt): WFNode(iface(s)) ==> s.Name != nil && (s.Body != nil ==> WFNode(iface(s.Body)))
+//@ axiom wfDumpStmt(s *DumpStmt): WFNode(iface(s)) ==> forall(k, 0, len(s.Arguments), WFN(s.Arguments[k]))
+//@ axiom wfIndexExp(x *IndexExp): WFNode(iface(x)) ==> WFN(x.Left) && WFN(x.Index)
+//@ axiom wfDotExp(x *DotExp): WFNode(iface(x)) ==> WFN(x.Left) && x.Key != nil && istype(x.Key, *Identifier)
+//@ axiom wfPrefixExp(x *PrefixExp): WFNode(iface(x)) ==> WFN(x.Right)
+//@ axiom wfTernaryExp(x *TernaryExp): WFNode(iface(x)) ==> WFN(x.Condition) && WFN(x.Consequence) && WFN(x.Alternative)
+//@ axiom wfInfixExp(x *InfixExp): WFNode(iface(x)) ==> WFN(x.Left) && WFN(x.Right)
+//@ axiom wfPostfixExp(x *PostfixExp): WFNode(iface(x)) ==> WFN(x.Left)
+//@ axiom wfCallExp(x *CallExp): WFNode(iface(x)) ==> WFN(x.Receiver) && x.Function != nil && forall(k, 0, len(x.Arguments), WFN(x.Arguments[k]))
+//@ axiom wfObjectLiteral(x *ObjectLiteral): WFNode(iface(x)) ==> forallkey(x.Pairs, k, WFN(x.Pairs[k]))
+//@ axiom wfArrayLiteral(x *ArrayLiteral): WFNode(iface(x)) ==> forall(k, 0, len(x.Elements), WFN(x.Elements[k]))
+
+//@ family ast.Node.Line(this)
+//@   modifies nothing
+//@ family ast.Node.String(this)
+//@   modifies nothing
+//@ family ast.Node.Tok(this)
+//@   modifies nothing
